@@ -290,3 +290,7 @@ PROPS['C13']['undecided_clauses'] = ["C13 relates TWO runs on two presentations;
                                      " exchanging neighbouring transitions / have position-free membership (PERM_LEMMAS). NOT mechanised: that every permutation is a product of neighbour exchanges (textbook fact), the renaming of actions"
                                      " (labels are only compared for equality: argued), and the RENUMBERING OF STATES, which changes the Gauss-Seidel sweep order and hence the iterates",
                                      PROPS['C13']['undecided_clauses'][1]]
+
+PROPS['C16']['level_text'] += (" conditionalrewards.main is verified against summaries of the three functions it calls: the batch runs on what was read from the file named by -f, and"
+                               " that result is saved under the same name exactly when -s is given (nothing is saved otherwise, nor when the input is refused).")
+PROPS['C08']['level_text'] += " write_robots is verified to hand each writer the caller's board and exactly the probabilities of its game, in parameter order."
